@@ -70,12 +70,14 @@ impl Compiler {
             r is Ok ==> gen_post(*old(self), *final(self), true),
     {
 //@GHOST before="let pos_jump = self.instructions.len();" let ghost s_def = *self;
-//@GHOST after="self.symbols.new_context();" let ghost s_ctx = *self; proof { /* O12.rec: a named function defined at top level is declared BEFORE its body is compiled, so the body can call it */ if name@.len() > 0 && sym_contexts(old(self).symbols) == 1 { lemma_function_sees_itself(old(self).symbols, s_def.symbols, s_ctx.symbols, name@); assert(sym_resolve(s_ctx.symbols, name@) == Some(sym_define_symbol(old(self).symbols, name@))); } }
+//@GHOST after="self.symbols.new_context();" proof { /* O02.slot: a function body is a flow of its own - its local slots are counted from scratch */ self.locals_bound = Ghost(0int); } let ghost s_ctx = *self; proof { /* O12.rec: a named function defined at top level is declared BEFORE its body is compiled, so the body can call it */ if name@.len() > 0 && sym_contexts(old(self).symbols) == 1 { lemma_function_sees_itself(old(self).symbols, s_def.symbols, s_ctx.symbols, name@); assert(sym_resolve(s_ctx.symbols, name@) == Some(sym_define_symbol(old(self).symbols, name@))); } }
 //@GHOST before="let result = self.compile_block_statement(body);" proof { /* no loop of the definition site is visible inside the body */ self.loop_h = Ghost(Seq::<H>::empty()); }
 //@GHOST after="let pos_start_function = self.instructions.len();" proof { /* a function body is a flow of its own, entered by Call with an empty operand area */ self.height = Ghost(H::At(0)); } let ghost s_start = *self;
 //@GHOST before="result?;" proof { self.loop_h = Ghost(old(self).loop_h@); } let ghost s_body = *self;
+//@GHOST after="let num_locals = self.symbols.leave_context();" proof { /* O02.slot: EVERY local slot used in the body lies below the slot count stored in the function's descriptor (what Call reserves) */ assert(self.locals_bound@ <= num_locals); self.locals_bound = Ghost(old(self).locals_bound@); }
 //@GHOST after="self.change_jump_operand_at(pos_jump, to_u16(self.instructions.len())?);" proof { /* the Jump over the body lands HERE; nothing may fall out of the end of the body */ self.height = Ghost(hjoin(self.height@, old(self).height@)); } let ghost s_patched = *self;
 //@LOOP 1 invariant sym_globals_kept(old(self).symbols, self.symbols), sym_outer(s_ctx.symbols) == sym_outer(old(self).symbols).push(sym_depth(old(self).symbols)), sym_outer(self.symbols) == sym_outer(s_ctx.symbols), sym_outer_sizes(s_ctx.symbols) == sym_outer_sizes(old(self).symbols).push(sym_max_size(s_def.symbols) as int), sym_outer_sizes(self.symbols) == sym_outer_sizes(s_ctx.symbols), sym_outer_sizes(s_def.symbols) == sym_outer_sizes(old(self).symbols), s_ctx.log@ == old(self).log@, s_ctx.instructions@.len() == old(self).instructions@.len() + 3, s_ctx.instructions@[old(self).instructions@.len() as int] == opcode_byte(OpCode::Jump), is_prefix(old(self).instructions@, s_ctx.instructions@), sym_contexts(s_ctx.symbols) == sym_contexts(old(self).symbols) + 1, s_ctx.loop_contexts == old(self).loop_contexts, gen_inv(s_ctx), s_ctx.last_instruction == Some(OpCode::Jump), pos_jump == old(self).instructions@.len(), forall|i: int| 0 <= i < old(self).constants@.len() ==> s_ctx.constants@[i] == old(self).constants@[i], old(self).constants@.len() <= s_ctx.constants@.len(), self.instructions == s_ctx.instructions, self.last_instruction == s_ctx.last_instruction, self.loop_contexts == s_ctx.loop_contexts, self.log@ == s_ctx.log@, self.constants == s_ctx.constants, sym_contexts(self.symbols) == sym_contexts(s_ctx.symbols), sym_depth(self.symbols) == 1, sym_wf(self.symbols), sym_params(self.symbols).len() == __it.index@, forall|j: int| 0 <= j < __it.index@ ==> #[trigger] sym_params(self.symbols)[j] == parameters@[j]@,
+//@GHOST before="self.emit_opcode(opcode);" proof { if symbol.scope == Scope::Local && self.locals_bound@ < symbol.index as int + 1 { self.locals_bound = Ghost(symbol.index as int + 1); } }
 //@ARM file=compiler.rs fn=compile_expression impl=Compiler arm="Expr::Function" rules="R1;R4;R11;R8[for p in parameters {=>for p in __it: parameters {]"
         proof {
             let code = self.instructions@;
